@@ -295,14 +295,19 @@ def harnesses(tier, seed):
             if th:
                 call = "ob_history(C, ops, si, validator, ci, di)"
                 ps = "ops: List[int], si: int, validator: bool, ci: int, di: int"
+            elif name in ("empty", "nullint") and alpha in ("writes", "append"):
+                # zero-byte records: the codec is symbolic as well (an empty payload is the corner case of every
+                # block compressor)
+                call = f"ob_history(C, ops, si, {bool(h & 16)}, ci, {(h >> 2) & 3})"
+                ps = "ops: List[int], si: int, ci: int"
             else:
                 call = f"ob_history(C, ops, si, {bool(h & 16)}, {h & 3}, {(h >> 2) & 3})"
                 ps = "ops: List[int], si: int"
             hs.append(Harness(f"history.{name}.{alpha}", "props.l7", ps, call + "[0]", replay_call=call,
                               setup=f"C = case({name!r}, {n}, {alpha!r})",
                               what=f"operation history on {name} ({alpha})",
-                              samples=[([0, 1, 2], 1) + ((False, 0, 1) if th else ()),
-                                       ([1, 0, 3], 100) + ((True, 1, 0) if th else ()),
-                                       ([2, 4, 0], 7) + ((False, 2, 2) if th else ())],
+                              samples=[([0, 1, 2], 1) + ((False, 0, 1) if th else ((3,) if "ci: int" in ps else ())),
+                                       ([1, 0, 3], 100) + ((True, 1, 0) if th else ((1,) if "ci: int" in ps else ())),
+                                       ([2, 4, 0], 7) + ((False, 2, 2) if th else ((2,) if "ci: int" in ps else ()))],
                               key=lambda a, k, nm=name, al=alpha: f"history:{nm}:{al}:" + ",".join(str(o) for o in a[0])))
     return hs
